@@ -33,7 +33,25 @@ pub struct Session {
     pub init_mem: Box<[u16; 0x10000]>,
 }
 
-fn diff_mem(mem: &[u16; 0x10000], init: &[u16; 0x10000]) -> Vec<(u16, u16)> {
+/// Address windows compared under Miri (the interpreter makes a 64K-word scan per prompt
+/// prohibitively slow; there the point of the run is UB detection, the native runs compare
+/// every word): low memory, the top of user space / stack area, and the top of memory.
+pub fn miri_windows() -> [(usize, usize); 4] {
+    [(0x0000, 0x0040), (0x2FC0, 0x3400), (0xFD80, 0xFE40), (0xFFF0, 0x10000)]
+}
+
+pub fn diff_mem(mem: &[u16; 0x10000], init: &[u16; 0x10000]) -> Vec<(u16, u16)> {
+    if cfg!(miri) {
+        let mut v = Vec::new();
+        for (lo, hi) in miri_windows() {
+            for a in lo..hi {
+                if mem[a] != init[a] {
+                    v.push((a as u16, mem[a]));
+                }
+            }
+        }
+        return v;
+    }
     if mem[..] == init[..] {
         return Vec::new();
     }
